@@ -148,7 +148,7 @@ def callee_from_clauses(name, params, requires, ensures, results, ghosts=None, r
             for k in allnames:
                 st.env.pop(k, None)
             st.env.update(saved_env)
-            keep = {k: v for k, v in st.ghost.items() if k not in saved_ghost and k not in (ghosts or {}) and k not in ('_result', '_stub_args')}
+            keep = {k: v for k, v in st.ghost.items() if (k not in saved_ghost or k.startswith(name + '__')) and k not in (ghosts or {}) and k not in ('_result', '_stub_args')}
             st.ghost = dict(saved_ghost)
             st.ghost.update(keep)
     return stub
